@@ -24,6 +24,23 @@ add("C11", "exploration",
     "property-based testing (rapid) + exhaustive small-size enumeration vs linear-scan model",
     "DESIGN.md C11")
 
+
+add("C04", "exploration",
+    "Generated-input search over geometry models (7 types x 4 coordinate types, empties at every position, nesting depth 4, zero values, all float64 classes incl. NaN/Inf in Z/M) x per-element byte order x trailing bytes. Oracles: an independent WKB writer/reader written from the ISO spec and bit-wise structural comparison of model trees; library decode must invert library encode and the independent mixed-endian encoding, re-encode must reproduce bytes, Value/Scan of Geometry, NullGeometry and all 7 concrete types must round trip and reject other types.",
+    "Trusted: independent codec (internal/codec/wkb.go), gm model conversion (read-back checked per case), rapid. Scan paths are exercised only on cases the library validates (valid-by-construction family, about 80% of cases).",
+    "property-based testing (rapid): round-trip + differential against an independent codec",
+    "DESIGN.md C04")
+add("C05", "exploration",
+    "Generated-input search over geometry models with all finite float64 classes x AppendWKT prefixes x token-level re-spellings x trailing tokens. Oracles: independent OGC-grammar WKT parser/printer, structural bit-wise comparison, a shortest-decimal test that tries the one-digit-shorter candidates, the independent WKB writer for WKT/WKB agreement; plus enumerated zero values of every Go type and hostile texts (NaN/Inf numerals, mixed dimensions) that must be rejected.",
+    "Trusted: independent WKT grammar (internal/codec/wkt.go), strconv.ParseFloat correct rounding, rapid.",
+    "property-based testing (rapid): round-trip + grammar-based metamorphic re-spelling",
+    "DESIGN.md C05")
+add("C18", "exploration",
+    "Generated-input search over triples A, B=mutate(A), C=mutate(B) where each mutation changes exactly one respect (one ulp, swap, rotation, reversal, emptiness, coordinate type, wrapping, zero sign, reorder, drop/duplicate, jitter). Oracles: WKB equality via the independent writer (no options), a brute-force order-insensitive matcher with exact rational ring-simplicity (IgnoreOrder), exact distances for the ToleranceXY premises; reflexivity/symmetry/transitivity on the triple.",
+    "Trusted: independent WKB writer, exact rational kernel (internal/exact/rat.go), rapid. Open known finding F18 (rings at magnitudes < 1e-150 or > 1e150) is excluded by class and counted.",
+    "property-based testing (rapid): single-difference mutant pairs vs model equality",
+    "DESIGN.md C18")
+
 NOT_YET = "check not built yet in this session (build in progress; see DESIGN.md section 7)"
 manifest = dict(
     version=1,
